@@ -926,6 +926,49 @@ def run_c12(tier, seed, keep=False):
 def replay(path):
     doc = json.load(open(path))
     prop = doc["property"]
+    if "observation" in doc:
+        # an oracle check (C14, C15, C17, filters): the descriptor is built and observed again, TLC compares with Expected
+        key = next(k for k, v in ORACLES.items() if v[0] == doc["spec"])
+        module, kind, inv = ORACLES[key]
+        ev = Evidence(prop, "quick", int(doc.get("seed", 1)))
+        with Work() as w:
+            w.build()
+            vlib.write_json(w.path("descs.json"), [doc["observation"]["desc"]])
+            w.run_drive(["intro", "-kind", kind, "-in", "descs.json", "-out", "obs.ndjson", "-reps", "3"])
+            cfg = write_cfg(w, "R.cfg", "TraceSpec", [inv], constants={"TraceFile": '"obs.ndjson"'})
+            res = w.tlc(module, cfg, workers=1, timeout=600)
+        if res["violated"]:
+            print("VIOLATION property=%s replay=%s" % (prop, path), flush=True)
+            return 1
+        if not res["ok"]:
+            raise Infra("replay did not complete:\n" + res["out"][-2000:])
+        print("replay: property %s holds on the descriptor (3 observations)" % prop)
+        return 0
+    if "events" in doc and "scenario" not in doc:
+        # a graph-layer / run-once check: a history of Graph operations (C19) is applied to real graphs again; for the
+        # other kinds the recorded execution is judged again (re-run the check with the recorded seed to re-execute)
+        module, inv, consts = doc["spec"], doc["invariant"], doc.get("constants", {})
+        ev = Evidence(prop, "quick", int(doc.get("seed", 1)))
+        with Work() as w:
+            w.build()
+            if module == "GraphTrace.tla":
+                ops = [{k: e[k] for k in ("op", "h", "k", "ver", "a", "b", "w")} for e in doc["events"] if e.get("op") != "reset"]
+                vlib.write_json(w.path("hist.json"), [ops])
+                nk = consts.get("Keys", "").count(",") + 1
+                w.run_drive(["graph-hist", "-n", "0", "-in", "hist.json", "-out", "t.ndjson", "-keys", str(max(nk, 3)), "-handles", str(consts.get("MaxHandles", "3"))])
+                how = "re-executed on real Graph values"
+            else:
+                open(w.path("t.ndjson"), "w").write("\n".join(json.dumps(e) for e in doc["events"]) + "\n")
+                how = "recorded execution judged again (not re-executed)"
+            cfg = write_cfg(w, "R.cfg", "TSpec" if module == "OnceTrace.tla" else "Spec", [inv], constants=dict(consts, TraceFile='"t.ndjson"'), post=None)
+            res = w.tlc(module, cfg, workers=1, timeout=600)
+        if res["violated"]:
+            print("VIOLATION property=%s replay=%s (%s)" % (prop, path, how), flush=True)
+            return 1
+        if not res["ok"]:
+            raise Infra("replay did not complete:\n" + res["out"][-2000:])
+        print("replay: %s holds (%s)" % (inv, how))
+        return 0
     scn = doc["scenario"]
     ev = Evidence(prop, "quick", int(doc.get("seed", 1)))
     with Work() as w:
